@@ -24,8 +24,8 @@ class Gen:
     """Random well-formed program generator. Tracks, per node, whether its value is exact+ordered
     ('eo'), otherwise fixed as a bag ('bag') or weak ('weak') so that only meaningful combinations are built."""
 
-    def __init__(self, rng, big=False, nargs=0, argkinds=None):
-        self.rng, self.big = rng, big
+    def __init__(self, rng, big=False, nargs=0, argkinds=None, mid=False):
+        self.rng, self.big, self.mid = rng, big, mid
         self.nodes, self.kind, self.nsh = [], [], []
         self.nargs, self.argkinds = nargs, argkinds or []
 
@@ -41,12 +41,14 @@ class Gen:
         nsh = r.choice([1, 2, 3])
         n = r.choice([0, 1, 2, 4, 6, 9]) if not self.big else r.choice([127, 128, 129, 200, 257, 300])
         kmax = 4 if not self.big else 40
+        if self.mid:
+            n, kmax = r.choice([30, 41, 64, 90]), 12
         x = r.random()
         if x < 0.12:
             return self.add(N('scanreader', nshard=nsh, rows=rows(r, n, kmax)), 'bag', nsh)
         if x < 0.55:
             return self.add(N('const', nshard=nsh, rows=rows(r, n, kmax)), 'eo', nsh)
-        shards = [rows(r, r.choice([0, 1, 2, 3, 5]) if not self.big else r.choice([0, 100, 128, 130]), kmax) for _ in range(nsh)]
+        shards = [rows(r, (r.choice([0, 1, 2, 3, 5]) if not self.mid else r.choice([0, 17, 33, 50])) if not self.big else r.choice([0, 100, 128, 130]), kmax) for _ in range(nsh)]
         return self.add(N('readerfunc', nshard=nsh, shards=shards, batch=r.choice([0, 1, 2, 3])), 'eo', nsh)
 
     def grow(self, i, allow_shuffle=True, last=False):
